@@ -9,6 +9,7 @@ keyspace strategies.  Since the repair ad6cb90 (`partition_point`) no hypothesis
 needed: members owning the same token are walked first owner first, consistently in every ring.
 -/
 import ScyllaVerif.Model.Replicas
+import ScyllaVerif.Model.Refresh
 import ScyllaVerif.Proofs.Ring
 import ScyllaVerif.Proofs.Replicas
 
@@ -578,6 +579,119 @@ example : (ntsIter exRing [(0, 2), (1, 0)] 160).map (·.id) = [2, 3] ∧
     (ntsIter exRing [(0, 2), (1, 2)] 160).map (·.id) = [2, 3, 5, 4] ∧
     (ntsOrdered exRing [(0, 2), (1, 2)] 160).map (·.id) = [5, 2, 3, 4] ∧
     ((List.map (·.1) [(0, 2), (1, 2)]).Nodup) := by decide
+
+/-! ### metadata refreshes: the locator depends only on the last metadata
+
+`calculate_new_topology` may put a *previous* `Node` object into the new ring (reuse, or re-creation with the pool
+inherited when only the address changed).  The placement then reads that object's datacenter and rack, so the
+guards of the reuse arms carry the property: a reused node must not differ from the new peer in datacenter or
+rack (tokens are always taken from the new peer). -/
+section refresh
+open ScyllaVerif.Refresh
+
+/-- Whatever the previous state holds, the node object chosen for a peer has the peer's host id, datacenter
+and rack — in all four arms of the reuse `match`, `inherit_with_ip_changed` included. -/
+theorem pickNode_node (known : List KNode) (p : MPeer) : (pickNode known p).node = p.node := by
+  have hid : ∀ k, lookupKnown known p.node.id = some k → k.node.id = p.node.id := by
+    intro k hk
+    have := List.find?_some hk
+    simpa using this
+  have eta : ∀ k : KNode, k.node.id = p.node.id → k.node.dc = p.node.dc → k.node.rack = p.node.rack →
+      k.node = p.node := by
+    intro k h1 h2 h3
+    cases hk : k.node; cases hp : p.node
+    rw [hk] at h1 h2 h3; rw [hp] at h1 h2 h3
+    simp only [] at h1 h2 h3
+    rw [h1, h2, h3]
+  unfold pickNode
+  split
+  · rename_i k _ hk
+    split
+    · rename_i hc
+      simp only [Bool.and_eq_true, decide_eq_true_eq] at hc
+      exact eta k (hid k hk) hc.1.1.2 hc.1.2
+    · rfl
+  · rfl
+  · rename_i k _ hk
+    split
+    · rename_i hc
+      simp only [Bool.and_eq_true, decide_eq_true_eq] at hc
+      split
+      · exact eta k (hid k hk) hc.1.2 hc.2
+      · have := eta k (hid k hk) hc.1.2 hc.2
+        simp only []
+        rw [← this]
+    · rfl
+  · rfl
+
+/-- The ring entries after a refresh are those of the new metadata alone. -/
+theorem newTopology_entries (known : List KNode) (peers : List MPeer) :
+    (newTopology known peers).2 = (toTopology peers).entries := by
+  unfold newTopology Topology.entries toTopology
+  simp only [pickNode_node, List.flatMap_map]
+
+/-- The metadata in force after a history (`topo` keeps the keyspaces, `enable` changes nothing). -/
+def metaAfter (m : List MPeer × List Strategy) : List Step → List MPeer × List Strategy
+  | [] => m
+  | .full peers S :: rest => metaAfter (peers, S) rest
+  | .topo peers :: rest => metaAfter (peers, m.2) rest
+  | .enable _ :: rest => metaAfter m rest
+
+private theorem run_invariant (st : CState) (m : List MPeer × List Strategy)
+    (h : st.loc = Topology.locator (toTopology m.1) m.2 ∧ st.keyspaces = m.2) (steps : List Step) :
+    (st.run steps).loc = Topology.locator (toTopology (metaAfter m steps).1) (metaAfter m steps).2 ∧
+      (st.run steps).keyspaces = (metaAfter m steps).2 := by
+  induction steps generalizing st m with
+  | nil => exact h
+  | cons s rest ih =>
+    unfold CState.run at ih ⊢
+    rw [List.foldl_cons]
+    cases s with
+    | full peers S =>
+      apply ih
+      simp only [CState.step, CState.refresh, newTopology_entries]
+      exact ⟨rfl, trivial⟩
+    | topo peers =>
+      apply ih
+      simp only [CState.step, CState.refreshTopology, newTopology_entries, h.2]
+      exact ⟨rfl, trivial⟩
+    | enable ids =>
+      apply ih
+      exact h
+
+/-- **`refresh_locator_eq_fresh`.** After any history of metadata refreshes (full or topology-only, with nodes
+changing rack, datacenter, tokens, address, leaving, joining, being enabled or disabled in between, and the
+keyspace strategies changing), the replica locator is the one of a cluster built from scratch from the last
+metadata: every replica set, in every view, depends on the last metadata only. -/
+theorem refresh_locator_eq_fresh (peers₀ : List MPeer) (S₀ : List Strategy) (steps : List Step) :
+    ((CState.fresh peers₀ S₀).run steps).loc =
+      (CState.fresh (metaAfter (peers₀, S₀) steps).1 (metaAfter (peers₀, S₀) steps).2).loc := by
+  have h0 : (CState.fresh peers₀ S₀).loc = Topology.locator (toTopology peers₀) S₀ ∧
+      (CState.fresh peers₀ S₀).keyspaces = S₀ := by
+    simp only [CState.fresh, newTopology_entries]; exact ⟨rfl, trivial⟩
+  have := (run_invariant (CState.fresh peers₀ S₀) (peers₀, S₀) h0 steps).1
+  rw [this]
+  simp only [CState.fresh, newTopology_entries]
+  rfl
+
+/-- The locator of a freshly built state is `locOf` of the sorted ring of the metadata: all theorems above apply
+to it. -/
+theorem fresh_locator (peers : List MPeer) (S : List Strategy) :
+    (CState.fresh peers S).loc = locOf (mkRing (toTopology peers).entries) S := by
+  simp only [CState.fresh, newTopology_entries]; rfl
+
+-- non-vacuity: node 2 moves from rack 1 to rack 0 and node 3 changes address; all reuse arms are taken and the
+-- chosen objects carry the new placement; a guard that ignored the rack would keep `some 1` for node 2
+example :
+    let known : List KNode := [⟨⟨1, some 0, some 0⟩, 1, false⟩, ⟨⟨2, some 0, some 1⟩, 2, false⟩,
+                               ⟨⟨3, some 0, some 1⟩, 3, true⟩, ⟨⟨4, some 0, some 2⟩, 4, true⟩]
+    (pickNode known ⟨⟨1, some 0, some 0⟩, 1, [10], false⟩) = ⟨⟨1, some 0, some 0⟩, 1, false⟩ ∧   -- reused (disabled)
+    (pickNode known ⟨⟨2, some 0, some 0⟩, 2, [20], false⟩).node.rack = some 0 ∧                   -- rack changed: new
+    (pickNode known ⟨⟨3, some 0, some 1⟩, 9, [30], true⟩) = ⟨⟨3, some 0, some 1⟩, 9, true⟩ ∧     -- address changed: inherited
+    (pickNode known ⟨⟨4, some 0, some 2⟩, 4, [40], true⟩) = ⟨⟨4, some 0, some 2⟩, 4, true⟩ ∧     -- reused (enabled)
+    (pickNode known ⟨⟨4, some 0, some 0⟩, 4, [40], true⟩).node.rack = some 0 := by decide       -- rack changed: new
+
+end refresh
 
 /-! ### non-vacuity of the precomputed path (in-kernel instances)
 
